@@ -73,8 +73,9 @@ def pinhole_cases(draw, nmax):
         else:
             dq.append(S.sig(v * draw(st.floats(1.0, 2.5)), 4))
     user = draw(st.integers(0, 4)) == 0 and n >= 2
+    via = (not user) and draw(st.integers(0, 2)) == 0
     return {"geom": "pinhole", "grid": kind, "q": q, "dq": dq, "user_qcalc": user,
-            "refine": draw(st.integers(1, 3))}
+            "refine": draw(st.integers(1, 3)), "via_direct": via}
 
 
 @st.composite
@@ -94,7 +95,7 @@ def slit_cases(draw, nmax):
         w0 = width(-4, 0) if mode in ("W", "LW") else 0.0
         L, W = [l0] * n, [w0] * n
     return {"geom": "slit", "grid": kind, "q": q, "L": L, "W": W, "mode": mode, "per_point": per_point,
-            "user_qcalc": False}
+            "user_qcalc": False, "via_direct": draw(st.integers(0, 2)) == 0}
 
 
 @st.composite
@@ -162,6 +163,18 @@ def check_resolution(case, rec):
             build = lambda: resolution.Slit1D(q, q_length=L, q_width=W)
         else:
             build = lambda: resolution.Slit1D(q, q_length=L[0] if L[0] else None, q_width=W[0] if W[0] else None)
+    if case.get("via_direct"):
+        # the resolution object DirectModel chooses for a data object carrying these widths
+        from sasmodels import direct_model
+        from sasmodels.data import Data1D
+        from . import c01
+        rec.cls("via-DirectModel")
+        if geom == "pinhole":
+            data = Data1D(x=q, dx=np.array(case["dq"], float))
+        else:
+            data = Data1D(x=q)
+            data.dxl, data.dxw = np.array(case["L"], float), np.array(case["W"], float)
+        build = lambda: direct_model.DirectModel(data, c01.get_model("sphere")).resolution
     rec.cls("kind:" + kind)
     tag = kind + (":n=1" if n == 1 else "")
     import signal
@@ -183,7 +196,11 @@ def check_resolution(case, rec):
         signal.alarm(0)
         signal.signal(signal.SIGALRM, old_handler)
     qc = np.asarray(R.q_calc, float)
-    Wm = np.asarray(R.weight_matrix, float)      # shape (len(q_calc), len(q)): columns are data points
+    if not hasattr(R, "weight_matrix"):
+        # perfect resolution object: identity on the data points
+        Wm = np.eye(len(qc)) if len(qc) == n else np.zeros((len(qc), n))
+    else:
+        Wm = np.asarray(R.weight_matrix, float)  # shape (len(q_calc), len(q)): columns are data points
     spans = 0
     for j in range(n):
         w = Wm[:, j]
